@@ -121,6 +121,12 @@ func (t *HToken) NBTxGa(tag string, _ *GatedArg, n string) error {
 	return err
 }
 
+// NBTxNbPanic: an immediate method without a sender whose body panics.
+func (t *HToken) NBTxNbPanic(script string) error {
+	_, err := t.runScript(script)
+	return err
+}
+
 // QueryGq: the gated body as a query (its writes must go nowhere, whichever invocations run next to it)
 func (t *HToken) QueryGq(tag string, n string) (string, error) { return t.gatedBody(tag, n) }
 
@@ -285,6 +291,7 @@ type ChanOpts struct {
 	DisableMultiSwaps bool
 	RobotSKI          string // default: robot SKI
 	NoAdmin           bool
+	DecimalsOff       int // the token's decimals are 8 + this (display precision: no amount, share or rate depends on it)
 }
 
 func (w *World) ConfigJSON(symbol string, o ChanOpts) string {
@@ -295,7 +302,7 @@ func (w *World) ConfigJSON(symbol string, o ChanOpts) string {
 	cfg := &fpb.Config{
 		Contract: &fpb.ContractConfig{Symbol: symbol, RobotSKI: ski,
 			Options: &fpb.ChaincodeOptions{DisabledFunctions: o.Disabled, DisableSwaps: o.DisableSwaps, DisableMultiSwaps: o.DisableMultiSwaps}},
-		Token: &fpb.TokenConfig{Name: symbol + " token", Decimals: 8,
+		Token: &fpb.TokenConfig{Name: symbol + " token", Decimals: 8 + uint32(o.DecimalsOff), // (8 unless the case asks otherwise)
 			Issuer:           &fpb.Wallet{Address: w.Issuer.AddrString()},
 			FeeSetter:        &fpb.Wallet{Address: w.FeeSet.AddrString()},
 			FeeAddressSetter: &fpb.Wallet{Address: w.FeeSet.AddrString()}},
